@@ -22,6 +22,29 @@ theorem usable_rustType : ∀ (key : Bool) (t : CTy), usable (rustType key t) = 
   | key, .ref n => by simp [rustType, usable]
   | key, .ext fb => by simp [rustType, usable_rustType key fb]
 
+/-- a field that does not get the `DoubleOps` methods has a type with an order of its own (no bare `f64` in it): the
+derived comparison, equality and hash of that field exist -/
+theorem isDouble_false_ord : ∀ t : CTy, isDouble t = false → ordOk (rustType false t) = true
+  | .prim p, h => by cases p <;> simp_all [rustType, ordOk, isDouble]
+  | .optional t, h => by simp only [rustType, ordOk]; exact isDouble_false_ord t (by simpa [isDouble] using h)
+  | .list t, h => by simp only [rustType, ordOk]; exact isDouble_false_ord t (by simpa [isDouble] using h)
+  | .set t, _ => by simp [rustType, ordOk, ordOk_key t]
+  | .map k v, h => by
+    simp only [rustType, ordOk, ordOk_key k, Bool.true_and]
+    exact isDouble_false_ord v (by simpa [isDouble] using h)
+  | .ref n, _ => by simp [rustType, ordOk]
+  | .ext fb, h => by simp only [rustType]; exact isDouble_false_ord fb (by simpa [isDouble] using h)
+
+/-- a field that gets the `DoubleOps` methods has a type they are implemented for -/
+theorem isDouble_true_ops : ∀ t : CTy, isDouble t = true → doubleOpsOk (rustType false t) = true
+  | .prim p, h => by cases p <;> simp_all [rustType, doubleOpsOk, isDouble]
+  | .optional t, h => by simp only [rustType, doubleOpsOk]; exact isDouble_true_ops t (by simpa [isDouble] using h)
+  | .list t, h => by simp only [rustType, doubleOpsOk]; exact isDouble_true_ops t (by simpa [isDouble] using h)
+  | .set t, h => by simp [isDouble] at h
+  | .map k v, h => by simp only [rustType, doubleOpsOk]; exact isDouble_true_ops v (by simpa [isDouble] using h)
+  | .ref n, h => by simp [isDouble] at h
+  | .ext fb, h => by simp only [rustType]; exact isDouble_true_ops fb (by simpa [isDouble] using h)
+
 /-- the rule before the repair (map values always written as in a value position): a set of maps to doubles is a
 set of something that has no order -/
 def rustTypeOld (key : Bool) : CTy → RTy
